@@ -40,6 +40,8 @@ func alphabet() []treefs.Op {
 	w("x/y", "N3")
 	w("d/e/h", "N4")
 	a = append(a, treefs.Op{Kind: "Writer", P: "f", Chunks: []string{"W", "1"}}, treefs.Op{Kind: "Writer", P: "d/g", Chunks: []string{"W2"}})
+	// a writer that is opened and closed without a single Write: creates an empty file / empties the remote's
+	a = append(a, treefs.Op{Kind: "Writer", P: "f"})
 	// (f: a path that is a FILE on one of the remotes - after its removal it can come back as a directory)
 	for _, p := range []string{"d", "e", "d/e", "x", "f"} {
 		a = append(a, treefs.Op{Kind: "MkdirAll", P: p})
@@ -207,8 +209,31 @@ func execute(cs Case, wantC06, wantC07 bool) runOut {
 			readsAgree(w.cache, ov, rm, modelOf(remotes[cs.Remote]), []string{"d"}, nil)
 		}
 	}
+	// Remove(x) of a directory that is on the remote at that moment: never replayed by Commit (recorded
+	// finding); a FILE created at x afterwards then collides with the remote's directory
+	remoteDirRemoved := map[string]bool{}
+	retypedAfterDirRemove := false
 	for i, op := range hist {
 		final := i >= len(cs.History)
+		if op.Kind != "Commit" {
+			a := absOps([]treefs.Op{op})[0]
+			if a.Kind == "Remove" {
+				segs, _ := treefs.Norm(a.P)
+				if n := rm.Lookup(segs); n != nil && n.Dir && len(segs) > 0 {
+					remoteDirRemoved[a.P] = true
+				}
+			}
+			switch a.Kind {
+			case "WriteFile", "Writer":
+				if remoteDirRemoved[a.P] {
+					retypedAfterDirRemove = true
+				}
+			case "CopyFile", "Copy":
+				if remoteDirRemoved[a.Q] {
+					retypedAfterDirRemove = true
+				}
+			}
+		}
 		if op.Kind == "Commit" {
 			nCommit++
 			failing := false
@@ -256,6 +281,9 @@ func execute(cs Case, wantC06, wantC07 bool) runOut {
 				if roots := remoteFileAsDir(absOps(cs.History), func(q string) bool { return len(everRemote[q]) > 0 }); len(roots) > 0 {
 					// the remote (rightly) refuses what the cache accepted without consulting it
 					kind = "commit-failed/remote-file-used-as-directory"
+				} else if retypedAfterDirRemove && strings.Contains(cerr.Error(), "must be a file") {
+					// the remote still holds the directory whose Remove is never committed
+					kind = "commit-failed/remove-of-remote-directory-not-committed"
 				}
 				add("C06", kind, "a Commit without remote failures succeeds", fmt.Sprintf("Commit returned %v", cerr))
 				return out
@@ -568,6 +596,10 @@ func rootCause(hist []treefs.Op, ov, rm, r0 *treefs.Node, segs []string, state s
 	if kind, ok := removedThenRetyped(p); ok && p != "" && (m.Kind == "answered-true" || m.Kind == "answered-false") {
 		// (existence / kind queries only: data reads of such a path do fail as they should)
 		return "removed-remote-node-still-visible/" + kind
+	} else if ok && p != "" && kind == "dir" && m.Kind == "succeeded-on-invisible-node" && state == "remote-dir-replaced-by-file" {
+		// ... except ReadDir of a removed remote directory that is a file now: the buffer refuses (a file),
+		// the listing falls through to the remote's directory
+		return "removed-remote-node-still-visible/dir"
 	}
 	if strings.HasPrefix(m.Kind, "lists-") || strings.HasPrefix(m.Kind, "misses-") || m.Kind == "wrong-listing" {
 		if n := ov.Lookup(segs); n != nil && n.Dir {
